@@ -37,6 +37,8 @@ type World struct {
 	sched *sched
 	K     *Kernel
 
+	SchedLog bool // log every scheduler step (debugging / determinism self-test)
+
 	// free slot for harness-specific state reachable from shims
 	Ext map[string]interface{}
 }
